@@ -150,6 +150,7 @@ type summary struct {
 	Probes      map[string]int     `json:"probes"`
 	Workloads   map[string]int     `json:"workloads"`
 	Strategies  map[string]int     `json:"strategies"`
+	OwnProcess  []json.RawMessage  `json:"own_process"`
 	MapSites    map[string]int     `json:"map_sites"`
 	Decisions   int64              `json:"decisions"`
 	Switches    int64              `json:"switches"`
@@ -360,6 +361,7 @@ func cmdRun(args []string) {
 	if *tier == "thorough" {
 		maxBad = 200
 	}
+	ownCount := 0
 	// fan out
 	sums := make([]*summary, nw)
 	errs := make([]string, nw)
@@ -404,10 +406,44 @@ func cmdRun(args []string) {
 		}
 	}
 
+	// specs that have to be the first thing a process does: one worker process each, 16 at a time
+	if len(sums) > 0 && sums[0] != nil && len(sums[0].OwnProcess) > 0 {
+		own := sums[0].OwnProcess
+		extra := make([]*summary, len(own))
+		sem := make(chan struct{}, nw)
+		var wg2 sync.WaitGroup
+		for k := range own {
+			wg2.Add(1)
+			go func(k int) {
+				defer wg2.Done()
+				sem <- struct{}{}
+				defer func() { <-sem }()
+				specFile := filepath.Join(b.dir, fmt.Sprintf("own-%d.json", k))
+				os.WriteFile(specFile, own[k], 0o644)
+				j := job{"mode": "one", "property": *prop, "tier": *tier, "seed": seed, "worker": k, "workers": 1, "file": specFile, "replay_dir": replayDir, "race_bin": b.race}
+				s1, e1, ci := startWorker(b.worker, b.dir, j, fmt.Sprintf("own%d", k), []string{"GOMAXPROCS=1"}, 6_000_000)
+				if e1 == "" && ci == nil {
+					extra[k] = s1
+				}
+			}(k)
+		}
+		wg2.Wait()
+		for _, s1 := range extra {
+			if s1 != nil {
+				s1.Planned = 0
+				sums = append(sums, s1)
+			}
+		}
+		ownCount = len(own)
+	}
+
 	// merge
 	total := &summary{Faults: map[string]int{}, Probes: map[string]int{}, Workloads: map[string]int{}, Strategies: map[string]int{}, MapSites: map[string]int{}, Extra: map[string]float64{}}
 	if oomRestarts > 0 {
 		total.Extra["worker_restarts_after_out_of_memory"] = float64(oomRestarts)
+	}
+	if ownCount > 0 {
+		total.Extra["runs_in_a_process_of_their_own"] = float64(ownCount)
 	}
 	distinct := map[string]bool{}
 	inter := map[string]bool{}
@@ -415,7 +451,9 @@ func cmdRun(args []string) {
 	var infraMsgs, detMis, allReplays []string
 	var maxWall float64
 	for _, s := range sums {
-		total.Planned = s.Planned
+		if s.Planned > 0 {
+			total.Planned = s.Planned + ownCount
+		}
 		total.Runs += s.Runs
 		total.Skipped += s.Skipped
 		total.Decisions += s.Decisions
@@ -489,9 +527,15 @@ func cmdRun(args []string) {
 		allReplays = append(allReplays, name)
 		bySig[sig] = &violation{Sig: sig, Class: "host-crash", Clause: "no-host-crash", Msg: "the run killed the worker process: " + ci.Msg, Replay: name, Count: 1, Spec: spec}
 	}
-	if len(detMis) > 0 {
+	if len(detMis) > 0 && len(bySig) == 0 {
 		b.cleanup()
 		infra("NONDETERMINISM: same spec, different event log: %v", detMis)
+	}
+	if len(detMis) > 0 {
+		// Runs of this tree violate the property (reported and replay-confirmed below); that some
+		// repetitions also differ in their event log is most likely the same defect seen from another
+		// angle (state the product carries from run to run) and must not hide the verdicts.
+		fmt.Printf("NOTE: %d repetition(s) with identical choices had a different event log (e.g. %s)\n", len(detMis), detMis[0])
 	}
 	if len(infraMsgs) > 0 && len(bySig) == 0 {
 		b.cleanup()
@@ -611,14 +655,28 @@ func cmdRun(args []string) {
 		}
 		wg.Wait()
 	}
+	// A violation counts when its replay file reproduces it in a fresh process. When some do and some do
+	// not, the confirmed ones are reported and the others are mentioned (a tree with state that moves from
+	// run to run can fail in more ways than can be pinned down); when none does, nothing can be concluded.
+	nConfirmed := 0
+	firstInfra := ""
 	for _, c := range confs {
-		if c.infra != "" {
-			b.cleanup()
-			infra("%s", c.infra)
+		if c.infra == "" {
+			nConfirmed++
+		} else if firstInfra == "" {
+			firstInfra = c.infra
 		}
+	}
+	if firstInfra != "" && nConfirmed == 0 {
+		b.cleanup()
+		infra("%s", firstInfra)
 	}
 	for i, sig := range sigs {
 		v := bySig[sig]
+		if confs[i].infra != "" {
+			fmt.Printf("NOTE: not reported, because its replay did not reproduce it: %s (%s)\n", sig, confs[i].infra)
+			continue
+		}
 		for _, n := range confs[i].notes {
 			fmt.Println(n)
 		}
